@@ -841,7 +841,7 @@ def lit_family(tier):
 # P in a child process (CPython's own compiler can overflow the C stack on deeply nested input)
 
 _P_CHILD = r'''
-import sys, json, base64, warnings, ast
+import sys, json, base64, warnings, ast, re
 sys.setrecursionlimit(1000)
 items = json.load(open(sys.argv[1]))
 out = open(sys.argv[2], "a")
@@ -898,6 +898,157 @@ def operands(n):
     elif isinstance(n, ast.AnnAssign) and n.value is not None:
         yield n.value                     # annotation typing: the value is checked against the annotation
 
+STRTOK = re.compile(r"(?i)^(?:[rbuf]|br|rb|fr|rf)?['\"]")
+
+def small_int(n):
+    """value of a constant integer expression (None if it is not one or gets big)"""
+    if isinstance(n, ast.Constant) and type(n.value) is int:
+        return n.value
+    if isinstance(n, ast.UnaryOp) and isinstance(n.op, ast.USub):
+        v = small_int(n.operand)
+        return None if v is None else -v
+    if isinstance(n, ast.BinOp):
+        a, b = small_int(n.left), small_int(n.right)
+        if a is None or b is None or abs(a) > 1 << 64 or abs(b) > 1 << 64:
+            return None
+        if isinstance(n.op, ast.Add): return a + b
+        if isinstance(n.op, ast.Mult): return a * b
+        if isinstance(n.op, ast.Pow) and 0 <= b <= 64 and abs(a) <= 1 << 16: return a ** b
+        if isinstance(n.op, ast.LShift) and 0 <= b <= 64: return a << b
+    return None
+
+def huge_const_op(n):
+    """a constant operation whose result has more than ~10**7 bits / items (CPython's folder refuses those)"""
+    if not isinstance(n, ast.BinOp):
+        return False
+    a, b = small_int(n.left), small_int(n.right)
+    if isinstance(n.op, ast.LShift):
+        return a is not None and b is not None and a != 0 and b > 10 ** 7
+    if isinstance(n.op, ast.Pow):
+        if isinstance(n.right, ast.BinOp) and isinstance(n.right.op, ast.Pow) and small_int(n.left) not in (None, 0, 1, -1):
+            bb, ee = small_int(n.right.left), small_int(n.right.right)
+            if bb is not None and ee is not None and abs(bb) > 1 and ee > 0 and ee * abs(bb).bit_length() > 24:
+                return True
+        return a is not None and b is not None and abs(a) > 1 and b * abs(a).bit_length() > 10 ** 7
+    if isinstance(n.op, ast.Mult):
+        for s, k in ((n.left, n.right), (n.right, n.left)):
+            if isinstance(s, (ast.Constant, ast.Tuple, ast.List)) and not (isinstance(s, ast.Constant) and not isinstance(s.value, (str, bytes))):
+                kk = small_int(k)
+                if kk is None and isinstance(k, ast.BinOp) and isinstance(k.op, ast.Pow):
+                    x, y = small_int(k.left), small_int(k.right)
+                    kk = 10 ** 9 if (x is not None and y is not None and abs(x) > 1 and y * abs(x).bit_length() > 24) else None
+                if kk is not None and kk > 10 ** 7:
+                    return True
+    return False
+
+def contains(n, types):
+    return any(isinstance(x, types) for x in ast.walk(n))
+
+def ast_tags(tree, text, lines):
+    t = set()
+    parents = {}
+    for n in ast.walk(tree):
+        for c in ast.iter_child_nodes(n):
+            parents[c] = n
+    def in_function(n):
+        while n in parents:
+            n = parents[n]
+            if isinstance(n, (ast.FunctionDef, ast.AsyncFunctionDef, ast.Lambda)):
+                return n
+        return None
+    for n in ast.walk(tree):
+        if isinstance(n, ast.TypeAlias) or getattr(n, "type_params", None):
+            t.add("pep695")
+        if isinstance(n, ast.Subscript):
+            sl = n.slice
+            parts = sl.elts if isinstance(sl, ast.Tuple) else [sl]
+            if any(isinstance(p, ast.Starred) for p in parts):
+                t.add("subscript-star")
+            if any(isinstance(p, ast.NamedExpr) for p in parts):
+                t.add("subscript-walrus")
+        if isinstance(n, ast.TryStar):
+            t.add("trystar")
+            if in_function(n) is None:
+                t.add("trystar-module")
+        if isinstance(n, ast.ClassDef):
+            if any(contains(b, ast.NamedExpr) for b in n.bases + [k.value for k in n.keywords]):
+                t.add("classarg-walrus")
+            if any(contains(d, (ast.ListComp, ast.SetComp, ast.DictComp, ast.GeneratorExp)) for d in n.decorator_list):
+                t.add("classdeco-comp")
+        if isinstance(n, (ast.FunctionDef, ast.AsyncFunctionDef, ast.ClassDef)):
+            if any(contains(d, ast.Await) for d in n.decorator_list):
+                t.add("deco-await")
+        if isinstance(n, ast.AugAssign) and contains(n.target, ast.GeneratorExp):
+            t.add("augtarget-genexp")
+        if isinstance(n, (ast.Module, ast.ClassDef, ast.FunctionDef, ast.AsyncFunctionDef)) and n.body:
+            kind = {"Module": "module", "ClassDef": "class"}.get(type(n).__name__, "def")
+            s = n.body[0]
+            is_lit = isinstance(s, ast.Expr) and (isinstance(s.value, ast.JoinedStr) or
+                                                  (isinstance(s.value, ast.Constant) and isinstance(s.value.value, (str, bytes))))
+            if isinstance(s, ast.Expr) and isinstance(s.value, ast.Constant) and isinstance(s.value.value, bytes):
+                t.add("docpos-bytes:" + kind)
+            if isinstance(s, ast.Expr) and isinstance(s.value, ast.Constant) and isinstance(s.value.value, str) and \
+                    any(0xD800 <= ord(ch) <= 0xDFFF for ch in s.value.value):
+                t.add("docpos-surrogate:" + kind)
+            try:
+                src = lines[s.lineno - 1].encode("utf8")[s.col_offset:].decode("utf8", "replace")
+            except Exception:
+                src = ""
+            if STRTOK.match(src) and not is_lit:
+                t.add("docpos-strfirst:" + kind)
+            if is_lit and not isinstance(s.value, ast.JoinedStr) and len(n.body) > 1 and n.body[1].lineno == s.end_lineno:
+                t.add("docpos-str-semicolon:" + kind)
+        if isinstance(n, ast.GeneratorExp) and any(g.is_async for g in n.generators):
+            f = in_function(n)
+            if isinstance(f, ast.FunctionDef):
+                t.add("async-genexp-in-def")
+        if isinstance(n, (ast.FunctionDef, ast.AsyncFunctionDef, ast.Lambda)):
+            a = n.args
+            kwnames = set(x.arg for x in a.kwonlyargs)
+            for d in a.kw_defaults:
+                if d is not None and any(isinstance(x, ast.Name) and x.id in kwnames for x in ast.walk(d)):
+                    t.add("kwonly-default-names-kwonly-param")
+        if huge_const_op(n):
+            t.add("huge-const-op")
+        if isinstance(n, ast.Assign) and len(n.targets) == 1 and isinstance(n.targets[0], (ast.Tuple, ast.List)) and \
+                isinstance(n.value, ast.Subscript) and isinstance(n.value.slice, ast.Slice) and n.value.slice.lower is not None and \
+                small_int(n.value.slice.lower) is None:
+            t.add("unpack-slice-nonconst-start")
+        if isinstance(n, (ast.For, ast.AsyncFor)) and isinstance(n.iter, (ast.Tuple, ast.List)) and n.iter.elts and \
+                all(isinstance(e, ast.Constant) and isinstance(e.value, (float, complex)) and not isinstance(e.value, bool) for e in n.iter.elts) \
+                and any(isinstance(e.value, complex) for e in n.iter.elts):
+            t.add("for-over-complex-literals")
+        if isinstance(n, ast.Call) and isinstance(n.func, ast.Attribute) and n.func.attr == "decode" and not n.args and not n.keywords \
+                and isinstance(n.func.value, ast.Constant) and isinstance(n.func.value.value, bytes):
+            t.add("bytes-literal-decode-noargs")
+        if isinstance(n, ast.Constant) and type(n.value) is int and n.value.bit_length() > 14280:
+            t.add("int-over-4300-digits")
+            p = parents.get(n)
+            if isinstance(p, ast.UnaryOp) and isinstance(p.op, ast.USub):
+                t.add("negated-int-over-4300-digits")
+    bs = [n.value for n in ast.walk(tree) if isinstance(n, ast.Constant) and isinstance(n.value, bytes)]
+    if bs and not any(bs):
+        t.add("only-empty-bytes")
+    return t
+
+def text_tags(text):
+    t = set()
+    if re.search(r"(?m)^[ \t]*pass[ \t]*;[ \t]*[^\s#;]", text):
+        t.add("pass-semicolon-stmt")
+    if re.search(r"(?<![\w.])0[0_]*_[1-9][0-9_]*[jJ]\b", text):
+        t.add("imag-leading-zero-underscore")
+    if re.search(r"(?m)^[ \t]*\f[ \t]+\S", text):
+        t.add("formfeed-in-indentation")
+    if re.search(r"(?i)(?<![\w])(?:fr|rf)(['\"])[^'\"\n]*\\\r?\n", text):
+        t.add("raw-fstring-backslash-newline")
+    if re.search(r"(?<![\w.])\d{4301,}", text) or re.search(r"(?i)(?<![\w.])0x[0-9a-f_]{3572,}", text) or \
+            re.search(r"(?i)(?<![\w.])0b[01_]{14285,}", text) or re.search(r"(?i)(?<![\w.])0o[0-7_]{4762,}", text):
+        t.add("int-over-4300-digits")
+    m = re.match(r"\s*(?:#[^\n]*\n\s*)*([A-Za-z_]\w*)", text)
+    if m and m.group(1) in ("print", "exec"):
+        t.add("first-token-" + m.group(1))
+    return t
+
 def features(data):
     tree = ast.parse(data)
     names = set()
@@ -909,7 +1060,8 @@ def features(data):
                 if typed(o):
                     typedop = True
                     break
-    return typedop, sorted(names)
+    text = data.decode("utf8", "replace")
+    return typedop, sorted(names), sorted(ast_tags(tree, text, text.split("\n")) | text_tags(text))
 
 for i, b in items:
     data = base64.b64decode(b)
@@ -919,20 +1071,20 @@ for i, b in items:
             warnings.simplefilter("ignore")
             compile(data, "<c43>", "exec", dont_inherit=True)
             try:
-                typedop, names = features(data)
+                typedop, names, tags = features(data)
             except (RecursionError, MemoryError, ValueError, SyntaxError):
-                typedop, names = True, []
-        v = [i, True, "", typedop, names]
+                typedop, names, tags = True, [], sorted(text_tags(data.decode("utf8", "replace")))
+        v = [i, True, "", typedop, names, tags]
     except SyntaxError as e:
-        v = [i, False, "SyntaxError: %s" % (e.msg,), False, []]
+        v = [i, False, "SyntaxError: %s" % (e.msg,), False, [], sorted(text_tags(data.decode("utf8", "replace")))]
     except (ValueError, OverflowError, RecursionError, MemoryError, UnicodeError) as e:
-        v = [i, False, "%s: %s" % (type(e).__name__, str(e)[:80]), False, []]
+        v = [i, False, "%s: %s" % (type(e).__name__, str(e)[:80]), False, [], sorted(text_tags(data.decode("utf8", "replace")))]
     out.write(json.dumps(v) + "\n"); out.flush()
 '''
 
 
 def cpython_verdicts(datas, workdir, tag="p"):
-    """{index: (valid, reason, typed_operand, ast node names)} for a list of byte strings; a text on which CPython
+    """{index: (valid, reason, typed_operand, ast node names, tags)} for a list of byte strings; a text on which CPython
     itself dies counts as not compiled.  typed_operand: some operation is applied to a value whose type is known at
     compile time (literal, display, comprehension, ...) -- the compiler may type-check such code (see c43.py)."""
     import base64, json, subprocess
@@ -965,13 +1117,13 @@ def cpython_verdicts(datas, workdir, tag="p"):
                 if v[1] == "start":
                     started = v[0]
                 else:
-                    res[v[0]] = (v[1], v[2], v[3], v[4])
+                    res[v[0]] = (v[1], v[2], v[3], v[4], v[5])
                     started = None
         rest = [t for t in todo if t[0] not in res]
         if not rest:
             break
         dead = started if started is not None else rest[0][0]
-        res[dead] = (False, "CPython died", False, [])
+        res[dead] = (False, "CPython died", False, [], [])
         todo = [t for t in rest if t[0] != dead]
         if rounds > 50:
             raise RuntimeError("CPython oracle child keeps dying")
